@@ -179,7 +179,7 @@ def domain(ctx):
     q = ctx.quick
     seeds = range(12 if q else 200)
     grid = []
-    for nt in ([2, 3, 4, 6, 9, 12] if q else range(2, 13)):
+    for nt in ([2, 3, 4, 6, 9, 10, 12, 18, 26] if q else list(range(2, 21)) + [26, 40]):
         for op in (None, "+", ["+", "-"]):
             for ov in (False, True):
                 grid.append(("simplify", [nt], {"op": op, "optional_var": ov}))
@@ -187,6 +187,8 @@ def domain(ctx):
         grid.append(("simplify", [nt], {"op": ["+", "-"], "noise_probability": 0.0, "share_var_probability": 1.0, "powers_probability": 1.0}))
         grid.append(("simplify", [nt], {"op": "-", "grouping_noise_probability": 1.0, "share_var_probability": 0.0, "noise_terms": 0}))
         grid.append(("simplify", [nt], {"op": "+", "common_variables": False, "noise_terms": 1, "powers_probability": 0.0}))
+        grid.append(("simplify", [nt], {"op": "+", "noise_probability": 1.0, "noise_terms": 6}))
+        grid.append(("simplify", [nt], {"op": ["+", "-"], "noise_probability": 1.0, "noise_terms": 10, "share_var_probability": 1.0}))
     for lo, hi in [(16, 26), (2, 2), (2, 5), (3, 12), (24, 25), (25, 25), (26, 26), (10, 20)]:
         for easy in (True, False):
             for powers in (False, True):
